@@ -140,6 +140,9 @@ pub struct HistModel {
     outcomes: Mutex<std::collections::BTreeSet<u64>>,
     checked_last: AtomicU64,
     monitor: Arc<HangMonitor>,
+    /// violating histories as the explorer found them (reported from here: a subject whose behaviour is not
+    /// reproducible must not be able to crash stateright's path reconstruction)
+    found: Mutex<Vec<(Vec<Op>, String)>>,
 }
 
 pub fn replay_hist(base: &Engine, utts: &[Vec<String>], baselines: &HashMap<(u8, usize), Vec<f64>>, hist: &[Op], outcomes: Option<&Mutex<std::collections::BTreeSet<u64>>>) -> Result<(), String> {
@@ -270,6 +273,9 @@ impl Model for HistModel {
         }
         let _watch = self.monitor.enter(|| format!("history {:?}", hist));
         let bad = replay_hist(&self.base, &self.utts, &self.baselines, &hist, Some(&self.outcomes)).err();
+        if let Some(b) = &bad {
+            self.found.lock().unwrap().push((hist.clone(), b.clone()));
+        }
         Some(HState { hist, live, mask, bad })
     }
     fn properties(&self) -> Vec<Property<Self>> {
@@ -584,6 +590,85 @@ fn run_sched_child(kind: usize, tuple: &[usize], bound: usize, gran: u8, wall: u
 }
 
 // ---------------------------------------------------------------------------------------------
+// copies are independent: a setter call on one copy of an engine is invisible to every other copy and to
+// generators that already exist
+// ---------------------------------------------------------------------------------------------
+fn clone_case(kind: usize, act: &Act, variant: usize) -> Result<(), String> {
+    let base = engine_kind(kind);
+    let utts = utterances();
+    let u = &utts[1];
+    let w0 = base.synthesize(&u[..]).map_err(|e| format!("baseline: {}", e))?;
+    let before = format!("{:?}", base.condition);
+    let act = act.clone();
+    let r = catch(move || -> Result<(), String> {
+        match variant {
+            0 => {
+                let e = base.clone();
+                let mut c = e.clone();
+                act.apply(&mut c.condition);
+                if format!("{:?}", e.condition) != before {
+                    return Err(format!("{:?} on a clone changed the original engine's condition", act));
+                }
+                let w = e.synthesize(&u[..]).map_err(|x| x.to_string())?;
+                if !bits_eq(&w, &w0) {
+                    return Err(format!("{:?} on a clone changed the original engine's waveform", act));
+                }
+            }
+            1 => {
+                let mut e = base.clone();
+                let c = e.clone();
+                act.apply(&mut e.condition);
+                if format!("{:?}", c.condition) != before {
+                    return Err(format!("{:?} on the original changed an earlier clone's condition", act));
+                }
+                let w = c.synthesize(&u[..]).map_err(|x| x.to_string())?;
+                if !bits_eq(&w, &w0) {
+                    return Err(format!("{:?} on the original changed an earlier clone's waveform", act));
+                }
+            }
+            _ => {
+                let mut e = base.clone();
+                let mut g = e.generator(&u[..]).map_err(|x| x.to_string())?;
+                let fp = g.fperiod();
+                let mut got = vec![0.0; fp];
+                let n = g.generate_step(&mut got);
+                got.truncate(n);
+                act.apply(&mut e.condition);
+                got.extend(g.generate_all());
+                if !bits_eq(&got, &w0) {
+                    return Err(format!("{:?} on the engine changed the rest of a generator that was already running", act));
+                }
+            }
+        }
+        Ok(())
+    });
+    match r {
+        Ok(x) => x,
+        Err(p) => Err(format!("panic: {}", p)),
+    }
+}
+fn clone_part(rep: &Report) {
+    let mut n = 0u64;
+    for kind in [2usize, 3] {
+        let ns = if kind == 2 { 3 } else { 2 };
+        let mut acts = setter_alphabet(ns);
+        acts.push(Act::Volume(1.0));
+        acts.push(Act::Align(false));
+        for a in &acts {
+            for variant in 0..3 {
+                rep.eval(1);
+                n += 1;
+                if let Err(m) = clone_case(kind, a, variant) {
+                    let key = if m.contains("panic") { "copies-panic" } else if variant == 2 { "generator-sees-later-setter" } else { "copies-share-settings" };
+                    rep.violation(key, format!("{} (voice kind {})", m, kind), json!({"part": "copies", "voice_kind": kind, "act": a.to_json(), "variant": variant}));
+                }
+            }
+        }
+    }
+    rep.note("copies", json!({"cases": n, "rule": "for every setter value of the alphabet: called on a clone (original observed), on the original (earlier clone observed), on the engine after a generator produced its first frame (rest of the generator observed)"}));
+}
+
+// ---------------------------------------------------------------------------------------------
 // static part and source scan
 // ---------------------------------------------------------------------------------------------
 fn static_part(rep: &Report) {
@@ -680,10 +765,11 @@ fn setter_alphabet(ns: usize) -> Vec<Act> {
 pub fn run(tier: Tier) -> i32 {
     let rep: &'static Report = Box::leak(Box::new(Report::new("C03", tier, "model_checking")));
     let monitor = Arc::new(HangMonitor::start(rep, "C03 call history"));
-    rep.set_rule("HIST (stateright BFS, no state merging): all call histories to the depth bound over {synthesize(u) for 4 utterances (one of them time-stamped), clone+synthesize, open a generator (<= 2 live), step it, finish it, set/reset 7 condition setters incl. alignment and frame period} on one real engine, every output compared bit-exactly with a baseline computed by a fresh child process for (condition values, labels); SCHED: for each tuple of programs {synthesize(u1), synthesize(u2), generator(u1) stepped, clone().synthesize(u1)} on one shared engine (mel-cepstral and LSP voices with GV, postfilter and mixed excitation; an interpolated 2-voice set), every schedule with <= B preemptions at verif-hooks sites under a controlled scheduler (one agent runs at a time), outputs compared with solo baselines; all sequences of <= 2/3 setter calls followed by one canonical assignment vs a fresh engine; compile-time Send/Sync/Clone assertion; non-trivial = history/schedule with at least two synthesis operations");
+    rep.set_rule("HIST (stateright BFS, no state merging): all call histories to the depth bound over {synthesize(u) for 4 utterances (one of them time-stamped), clone+synthesize, open a generator (<= 2 live), step it, finish it, set/reset 7 condition setters incl. alignment and frame period} on one real engine, every output compared bit-exactly with a baseline computed by a fresh child process for (condition values, labels); SCHED: for each tuple of programs {synthesize(u1), synthesize(u2), generator(u1) stepped, clone().synthesize(u1)} on one shared engine (mel-cepstral and LSP voices with GV, postfilter and mixed excitation; an interpolated 2-voice set), every schedule with <= B preemptions at verif-hooks sites under a controlled scheduler (one agent runs at a time), outputs compared with solo baselines; all sequences of <= 2/3 setter calls followed by one canonical assignment vs a fresh engine; every setter value called on a clone / on the original / after a generator started, with the other copy or the running generator observed; compile-time Send/Sync/Clone assertion; non-trivial = history/schedule with at least two synthesis operations");
     rep.assume("preemptions only at verif-hooks sites (fine: every site, impulse-response loop thinned to every 191st iteration; coarse: stage boundaries); at most 3 controlled threads and 2 preemptions; weak-memory effects are not modelled");
     static_part(rep);
     source_scan(rep);
+    clone_part(rep);
     let utts = utterances();
     let mut total_sched = 0u64;
     let mut multi_trace = 0usize;
@@ -707,7 +793,7 @@ pub fn run(tier: Tier) -> i32 {
         let distinct_base: std::collections::BTreeSet<u64> = baselines.values().map(|w| hash_f64s(w)).collect();
         let mut counts = Vec::new();
         for threads in [nthreads(), (nthreads() / 2).max(2)] {
-            let model = HistModel { base: base.clone(), utts: utts.clone(), baselines: baselines.clone(), depth, transitions: Default::default(), outcomes: Default::default(), checked_last: Default::default(), monitor: monitor.clone() };
+            let model = HistModel { base: base.clone(), utts: utts.clone(), baselines: baselines.clone(), depth, transitions: Default::default(), outcomes: Default::default(), checked_last: Default::default(), monitor: monitor.clone(), found: Default::default() };
             let checker = model.checker().threads(threads).target_max_depth(depth + 2).spawn_bfs().join();
             counts.push(checker.unique_state_count());
             rep.guard(checker.model().checked_last.load(Ordering::Relaxed) > 0, "invariant never evaluated on histories at the depth bound");
@@ -728,9 +814,12 @@ pub fn run(tier: Tier) -> i32 {
             }
             rep.note(&format!("hist_voice{}", kind), json!({"voice": voice_cfg(kind).describe(), "depth": depth, "unique_states": checker.unique_state_count(), "transitions": tr, "baseline_child_processes": baselines.len(), "distinct_baseline_waveforms": distinct_base.len(), "frames_u1": baselines[&(0, 0)].len() / base.condition.get_fperiod()}));
             rep.guard(distinct_base.len() > 8, "baselines hardly differ: the setters do not influence the output");
-            for (_n, path) in checker.discoveries() {
-                let last = path.last_state().clone();
-                let what = last.bad.clone().unwrap_or_else(|| "an output along this history differed from its fresh-process baseline when the explorer first executed it, but not when stateright re-executed the path on another thread to report it: the result depends on hidden per-thread or per-process state".to_string());
+            let found = checker.model().found.lock().unwrap().clone();
+            for (hist, what) in found {
+                struct L {
+                    hist: Vec<Op>,
+                }
+                let last = L { hist };
                 let key = if what.contains("panic") { "hist-panic" } else if what.contains("changed the engine's condition") { "hist-condition-changed" } else if what.contains("clone") { "hist-clone" } else if what.contains("generator") { "hist-generator" } else { "hist-repeat" };
                 rep.violation(key, format!("{} :: history {:?}", what, last.hist), json!({"part": "hist", "voice_kind": kind, "history": last.hist.iter().map(|o| format!("{:?}", o)).collect::<Vec<_>>()}));
             }
@@ -936,6 +1025,20 @@ pub fn replay(v: &Value) -> i32 {
                 Err(e) => {
                     println!("replay failed: {}", e);
                     2
+                }
+            }
+        }
+        Some("copies") => {
+            let kind = v["voice_kind"].as_u64().unwrap_or(2) as usize;
+            let act = Act::from_json(&v["act"]).expect("action");
+            match clone_case(kind, &act, v["variant"].as_u64().unwrap_or(0) as usize) {
+                Ok(()) => {
+                    println!("replay: copies are independent for {:?}", act);
+                    0
+                }
+                Err(m) => {
+                    println!("MISMATCH: {}", m);
+                    1
                 }
             }
         }
